@@ -137,8 +137,9 @@ REGISTRY.update({
 def run_c13(ctx: Ctx):
     ctx.trusted_base = BASE_TRUST + ["hash(x) is modelled as an unknown function of the generated hash key spec_hkey x (dataclass unsafe_hash: tuple of hash-flagged fields; "
                                      "Version hashes its comparison key); stream S-gen compares key equality with observed hash equality",
-                                     "marker part (objects differing in operand order / value order / attached caches): direct oracle only"]
+                                     "marker part: C13m theorems over Model/Marker.v's marker_eqb (== an equivalence; ==-equal operands give results with the same meaning); hash agreement of markers and objects differing only in attached caches: direct oracle only"] + MARKER_PROOF_TRUST
     props_spec.proof_step(ctx, "Props/C13.v", ["C13_refl", "C13_sym", "C13_trans", "C13_total", "C13_hash", "C13_congr"], extra_targets=["Model/Corr.v"])
+    props_spec.proof_step(ctx, "Props/C13m.v", ["C13m_refl", "C13m_sym", "C13m_trans", "C13m_same_meaning", "C13m_interchangeable", "C13m_interchangeable_l"], extra_targets=["Model/CorrMarker.v"])
     pairs = props_spec.run_c13_spec(ctx)
     if not any(b["kind"] == "translation" for b in ctx.broken):
         from dep_logic.specifiers import AnySpecifier, RangeSpecifier
